@@ -10,8 +10,9 @@
      pkginit    {id, imps, vars, inits, form, outcome, out}   a program of several packages (PkgInit.tla)
      godata     {id, ops, outcome, out, msg}   a straight-line program over composite data (GoData.tla): ops = the Go texts
                 of its operations, out = the printed lines (integers), msg = the bytes of the panic message
+     goiface    {id, ops, outcome, out, msg}   a straight-line program over interface values (GoIface.tla), logged like godata
    A record is good iff the observation is what the Go-semantics reference prescribes. *)
-EXTENDS IntALU, InitOrder, StrConv, GoMisc, PkgInit, GoData, Json, SequencesExt
+EXTENDS IntALU, InitOrder, StrConv, GoMisc, PkgInit, GoData, GoIface, Json, SequencesExt
 
 (* ---- intalu *)
 AluExpectsPanic(r) == (r.op \in {"div", "rem"} /\ r.y.s = 0) \/ (r.op \in Shifts /\ r.y.s < 0)
@@ -165,11 +166,38 @@ GdSigE(r, e) ==
    after |-> IF l <= 2 \/ l - 2 > Len(r.ops) THEN "" ELSE r.ops[l - 2]]
 GdSig(r) == IF GdKnown(r) THEN GdSigE(r, GdRef(r)) ELSE [fam |-> "godata", like |-> "other", cause |-> "unknown-operation", at |-> "", after |-> ""]
 
+(* ---- goiface: {id, ops, outcome, out, msg}: the reference of GoIface.tla is run HERE on the logged operations (found in the
+   alphabet by their Go text); good iff the program ended the same way (ok, or a run-time panic of the same class: the message
+   starts with Go's text for the class; the types named after it are not judged) and printed the same lines.  A record with an
+   operation that the alphabet does not have (a replay of an older alphabet) is not judged. *)
+GiByText == [t \in {GiOps[j].go : j \in 1..GiN} |-> CHOOSE j \in 1..GiN : GiOps[j].go = t]
+GiKnown(r) == \A j \in 1..Len(r.ops) : r.ops[j] \in DOMAIN GiByText
+GiRef(r) == GiRun([j \in 1..Len(r.ops) |-> GiByText[r.ops[j]]])
+GiOkE(r, e) == /\ r.outcome = e.outcome
+               /\ r.out = e.out
+               /\ (e.outcome = "panic" => GdStartsWith(r.msg, GiMsgPrefix(e.msg)))
+GiOk(r) == ~GiKnown(r) \/ GiOkE(r, GiRef(r))
+\* the signature names the operation after which the first differing line was printed (its Go text), the kind of the
+\* operation before it, what is wrong, and ind: does the program contain an operation of GiIndirect (e or g is captured by a
+\* function literal or its address is taken)
+GiSigE(r, e) ==
+  LET l == GdFirstDiff(r.out, e.out) IN
+  [fam |-> "goiface",
+   cause |-> IF r.outcome \notin {"ok", "panic"} THEN r.outcome
+             ELSE IF r.outcome # e.outcome THEN (IF e.outcome = "panic" THEN "missing-panic" ELSE "unexpected-panic")
+             ELSE IF r.out # e.out THEN "wrong-output" ELSE "wrong-panic-message",
+   at |-> IF l = 1 THEN "declarations" ELSE IF l - 1 > Len(r.ops) THEN "end" ELSE r.ops[l - 1],
+   after |-> IF l <= 2 \/ l - 2 > Len(r.ops) THEN "" ELSE r.ops[l - 2],
+   ind |-> \E j \in 1..Len(r.ops) : r.ops[j] \in GiIndirect]
+GiSig(r) == IF GiKnown(r) THEN GiSigE(r, GiRef(r)) ELSE [fam |-> "goiface", cause |-> "unknown-operation", at |-> "", after |-> "", ind |-> FALSE]
+
 RecOk(r) == CASE r.fam = "intalu" -> AluOk(r) [] r.fam = "initorder" -> InitOk(r) [] r.fam = "conv" -> ConvOk(r) [] r.fam = "minigo" -> MgOk(r)
-              [] r.fam \in MiscFams -> MiscOk(r) [] r.fam = "pkginit" -> PkgOk(r) [] r.fam = "godata" -> GdOk(r)
+              [] r.fam \in MiscFams -> MiscOk(r) [] r.fam = "pkginit" -> PkgOk(r) [] r.fam = "godata" -> GdOk(r) [] r.fam = "goiface" -> GiOk(r)
 Sig(r) == CASE r.fam = "intalu" -> AluSig(r) [] r.fam = "initorder" -> InitSig(r) [] r.fam = "conv" -> ConvSig(r) [] r.fam = "minigo" -> MgRecSig(r)
-            [] r.fam \in MiscFams -> MiscSig(r) [] r.fam = "pkginit" -> PkgSig(r) [] r.fam = "godata" -> GdSig(r)
-Cause(r) == <<r.fam, Sig(r).cause>>
+            [] r.fam \in MiscFams -> MiscSig(r) [] r.fam = "pkginit" -> PkgSig(r) [] r.fam = "godata" -> GdSig(r) [] r.fam = "goiface" -> GiSig(r)
+\* (goiface: the programs with an operation of GiIndirect apart, so that the records of one root cause that spoils whole programs
+\* cannot push a different failure out of a capped list)
+Cause(r) == <<r.fam, Sig(r).cause>> \o (IF r.fam = "goiface" /\ Sig(r).ind THEN <<"ind">> ELSE <<>>)
 
 (* ---- record-walk skeleton (as in spec/lib2/Trace_HTMLEscape.tla).  One difference: when more than 400 records are bad, the list
    written out is capped PER CAUSE (first 60 of each) instead of globally, so that the
